@@ -1186,8 +1186,88 @@ class ConstructBuilder:
             raise KeyError(op)
         return out
 
+    # ---------------------------------------------------------------------------------------------- CTE family
+    def _cte(self, x):
+        """[cte, kind, site, reuse, second, outer]: ONE cte object referenced from one / two sibling scopes"""
+        sa, t, u = self.sa, self.t, self.u
+        kind, site, reuse, second, outer = x["a"], x["b"], x["c"], x["d"], x["e"]
+        sites_all = ["from", "scalar", "exists", "derived", "union_arm"]
+        base_q = sa.select(t.c.id, t.c.x).where(t.c.x > 5)
+        if kind == "plain" or kind == "nest_here":
+            c = base_q.cte("n")
+        elif kind == "recursive":
+            c = base_q.cte("n", recursive=True)
+            c = c.union_all(sa.select(t.c.id, t.c.x).join(c, t.c.x == c.c.id))
+        elif kind == "nesting":
+            c = base_q.cte("n", nesting=True)
+        else:
+            raise KeyError(kind)
+        sites = [site]
+        if reuse == "two":
+            nxt = sites_all[(sites_all.index(site) + 1) % len(sites_all)]
+            if outer != "select":
+                nxt = {"from": "scalar", "scalar": "exists", "exists": "from"}[site]
+            sites.append(site if second == "same" else nxt)
+        dml = outer != "select"
+        cols, froms, crit, arms = [], [], [], []
+
+        def scope(i):
+            si = sa.select(c.c.id).where(c.c.x < 10 * (i + 1))
+            if kind == "nest_here":
+                si = si.add_cte(c, nest_here=True)
+            return si
+        nfrom = 0
+        for i, st in enumerate(sites):
+            if st == "from":
+                tgt = c if nfrom == 0 else c.alias("n_again")
+                nfrom += 1
+                froms.append(tgt)
+                if dml:
+                    crit.append(tgt.c.x > i)
+                else:
+                    cols.append(tgt.c.x.label("fx%d" % i))
+            elif st == "scalar":
+                sc = scope(i).scalar_subquery()
+                if dml:
+                    crit.append(t.c.x > sc)
+                else:
+                    cols.append(sc.label("sc%d" % i))
+            elif st == "exists":
+                crit.append(scope(i).where(c.c.id == t.c.id).exists())
+            elif st == "derived":
+                dq = scope(i).subquery("d%d" % i)
+                froms.append(dq)
+                cols.append(dq.c.id.label("dv%d" % i))
+            elif st == "union_arm":
+                arms.append(scope(i))
+            else:
+                raise KeyError(st)
+        body = sa.select(t.c.id, *cols).select_from(t)
+        for f in froms:
+            body = body.join(f, sa.true())
+        if crit:
+            body = body.where(*crit)
+        if kind == "nest_here" and "from" in sites:
+            body = body.add_cte(c, nest_here=True)
+        if arms:
+            content = bool(cols or froms or crit)
+            stmt = sa.union_all(*(([body] if content else []) + arms + ([] if content or len(arms) > 1 else [sa.select(t.c.id)])))
+        else:
+            stmt = body
+        if outer == "select":
+            return stmt
+        if outer == "insert_from":
+            return sa.insert(u).from_select(["id"], stmt)
+        if outer == "update_where":
+            return sa.update(u).values(z=5).where(u.c.t_id.in_(stmt))
+        if outer == "delete_where":
+            return sa.delete(u).where(u.c.t_id.in_(stmt))
+        raise KeyError(outer)
+
     def build(self, x):
         k = x["k"]
+        if k == "cte":
+            return [("cte", self._cte(x))]
         if k == "select":
             return [("select", self._select(x))]
         if k == "insert":
